@@ -420,7 +420,7 @@ func (p *pkgInfo) parseTable(fn *ast.FuncDecl) []fieldRow {
 		if p.dynamicSlice(val) {
 			return // a variable-length field: not part of the fixed layout
 		}
-		if mentionsBytes(val) {
+		if _, isCall := unwrapConv(val).(*ast.CallExpr); isCall || mentionsBytes(val) {
 			p.giveUp(at, "field "+name+" is read from the input in a way the translator does not know: "+exprString(p.fset, val))
 		}
 	}
